@@ -10,4 +10,5 @@ uint16_t *G_b16;   /* entry values of buffer parameters that the loop advances *
 uint32_t *G_b32;
 uint64_t *G_b64;
 uint16_t G_old16; uint32_t G_old32; uint64_t G_old64;   /* entry value of element GK */
+uint64_t G_q0, G_k0, G_c0;   /* abstract-view snapshots taken by ghost entry code */
 #endif
